@@ -17,6 +17,9 @@
 //   items  number of items the generator produces (<= 6)
 //   thr,at    (C29) stage `thr` throws TagEx{thr*8+id} when it sees item id `at` (generator: when it would produce
 //          item `at`); all=1: it throws for every id >= at.  thr2,at2: a second thrower.
+//   wildcards, enumerated exhaustively inside one run with mc::choose (cost 0): '*' in st = each of p/2/u;
+//          f<k>=-2 = each of {-1, 0, 2}; thr=-2 = each stage; at=-2 = each item.  Every message ends with the
+//          resolved configuration in brackets.
 //   again  (C29) 1 = afterwards run a second, non-throwing pipeline on the same pool and check it fully
 //
 // Items own heap memory twice (a unique_ptr<mc::Tracked<int>> for the lifetime registry, which also works in the
@@ -32,6 +35,8 @@
 
 namespace {
 constexpr int kMaxStages = 5, kMaxItems = 6;
+char g_desc[160]; // resolved configuration (wildcards), written by T0 before the pool exists; appended to every message
+#define PCHECK(cond, fmt, ...) MC_CHECK(cond, fmt " [%s]", ##__VA_ARGS__, g_desc)
 
 struct TagEx {
   int tag;
@@ -78,11 +83,11 @@ struct Flight {
   Ctx& c;
   int k;
   Flight(Ctx& cc, int kk) : c(cc), k(kk) {
-    MC_CHECK(c.returned.get() == 0, "C27: stage %d invoked after pipeline() had returned", k);
+    PCHECK(c.returned.get() == 0, "C27: stage %d invoked after pipeline() had returned", k);
     int cur = c.inflight[k].add(1) + 1;
     c.maxin[k].max_with(cur);
     if (c.prop == 28)
-      MC_CHECK((long)cur <= c.limit[k], "C28: stage %d has %d concurrent invocations, limit %ld%s", k, cur, c.limit[k],
+      PCHECK((long)cur <= c.limit[k], "C28: stage %d has %d concurrent invocations, limit %ld%s", k, cur, c.limit[k],
                c.plain[k] ? " (plain function = serial)" : "");
     if (dispenso::detail::PerPoolPerThreadInfo::inlineDepth() > 0) c.inlined.set(1);
   }
@@ -90,9 +95,9 @@ struct Flight {
 };
 
 inline void record(Ctx& c, int k, int id) {
-  MC_CHECK(id >= 0 && id < c.nitems, "C27: stage %d received an item with id %d that the generator never produced", k, id);
+  PCHECK(id >= 0 && id < c.nitems, "C27: stage %d received an item with id %d that the generator never produced", k, id);
   int prev = c.cnt[k][id].add(1);
-  MC_CHECK(prev == 0, "C%d: stage %d processed item %d a second time", c.prop == 29 ? 29 : 27, k, id);
+  PCHECK(prev == 0, "C%d: stage %d processed item %d a second time", c.prop == 29 ? 29 : 27, k, id);
   mc::observe("ev", (long)c.seq.add(1) * 64 + k * 8 + id);
 }
 
@@ -114,11 +119,11 @@ inline void maybe_throw(Ctx& c, int k, int id) {
 inline void receive(Ctx& c, int k, Item& in) {
   record(c, k, in.id);
   unsigned want = (1u << k) - 1;
-  MC_CHECK(in.path == want, "C27: stage %d received item %d with stage path %#x, expected %#x (not its predecessor's output)", k, in.id, in.path, want);
-  MC_CHECK((int)in.v.size() == k + 1 && in.v[0] == in.id, "C27: stage %d received item %d with a payload of %d entries", k, in.id, (int)in.v.size());
-  for (int j = 1; j <= k; j++) MC_CHECK(in.v[j] == j - 1, "C27: stage %d item %d: payload entry %d is %d", k, in.id, j, in.v[j]);
-  MC_CHECK(in.t && in.t->v == in.id, "C27: stage %d received item %d without its owned object", k, in.id);
-  MC_CHECK(!c.dropped_before(k, in.id), "C27: stage %d received item %d, which an upstream stage had filtered out", k, in.id);
+  PCHECK(in.path == want, "C27: stage %d received item %d with stage path %#x, expected %#x (not its predecessor's output)", k, in.id, in.path, want);
+  PCHECK((int)in.v.size() == k + 1 && in.v[0] == in.id, "C27: stage %d received item %d with a payload of %d entries", k, in.id, (int)in.v.size());
+  for (int j = 1; j <= k; j++) PCHECK(in.v[j] == j - 1, "C27: stage %d item %d: payload entry %d is %d", k, in.id, j, in.v[j]);
+  PCHECK(in.t && in.t->v == in.id, "C27: stage %d received item %d without its owned object", k, in.id);
+  PCHECK(!c.dropped_before(k, in.id), "C27: stage %d received item %d, which an upstream stage had filtered out", k, in.id);
   in.path |= 1u << k;
   in.v.push_back(k);
 }
@@ -128,7 +133,7 @@ struct GenF {
   dispenso::OpResult<Item> operator()() {
     Flight fl(*c, 0);
     dispenso::TaskSetBase* t = dispenso::parentTaskSet(); // generator instances always run as tasks of the pipeline's set
-    MC_CHECK(t != nullptr, "harness: generator running outside any task set");
+    PCHECK(t != nullptr, "harness: generator running outside any task set");
     c->ts.set(t);
     if (c->visible()) c->gen_late.add(1);
     c->gen_calls.add(1);
@@ -282,12 +287,12 @@ void configure(Ctx& c, int prop, int n, const std::string& st, const long* drops
   c.n = n;
   c.nst = (int)st.size();
   c.nitems = items;
-  MC_CHECK(c.nst >= 1 && c.nst <= kMaxStages && items >= 0 && items <= kMaxItems, "harness: bad shape");
+  PCHECK(c.nst >= 1 && c.nst <= kMaxStages && items >= 0 && items <= kMaxItems, "harness: bad shape");
   for (int k = 0; k < c.nst; k++) {
     char ch = st[(size_t)k];
     c.plain[k] = ch == 'p' && c.nst <= 3;
     c.limit[k] = ch == 'u' ? (long)dispenso::kStageNoLimit : (ch == 'p' ? 1 : ch - '0');
-    MC_CHECK(c.limit[k] >= 1, "harness: bad stage character '%c'", ch);
+    PCHECK(c.limit[k] >= 1, "harness: bad stage character '%c'", ch);
     c.drop[k] = (k >= 1 && k < c.nst - 1) ? drops[k] : -1;
   }
 }
@@ -295,10 +300,10 @@ void configure(Ctx& c, int prop, int n, const std::string& st, const long* drops
 // what a pipeline that was NOT interrupted by an exception must have done by the time pipeline() returns
 void check_complete(Ctx& c, const char* which) {
   for (int k = 0; k < c.nst; k++)
-    MC_CHECK(c.inflight[k].get() == 0, "C27: %s pipeline() returned while stage %d was still running", which, k);
+    PCHECK(c.inflight[k].get() == 0, "C27: %s pipeline() returned while stage %d was still running", which, k);
   if (c.nst == 1) {
     // the single stage is to be called until it reports completion by returning false
-    MC_CHECK(c.gen_ends.get() >= 1,
+    PCHECK(c.gen_ends.get() >= 1,
              "C27: %s single-stage pipeline() returned before the stage reported completion (%d of %d items done, stage invoked %d times)",
              which, c.next.get() < c.nitems ? c.next.get() : c.nitems, c.nitems, c.gen_calls.get());
   }
@@ -306,7 +311,7 @@ void check_complete(Ctx& c, const char* which) {
     bool alive = true;
     for (int k = 0; k < c.nst; k++) {
       int want = alive ? 1 : 0, got = c.cnt[k][id].get();
-      MC_CHECK(got == want, "C27: %s pipeline() returned with item %d processed %d times by stage %d (expected %d)", which, id, got, k, want);
+      PCHECK(got == want, "C27: %s pipeline() returned with item %d processed %d times by stage %d (expected %d)", which, id, got, k, want);
       if (k >= 1 && c.drop[k] > 0 && (c.drop[k] >> id & 1)) alive = false;
     }
   }
@@ -315,12 +320,12 @@ void check_complete(Ctx& c, const char* which) {
 void check_limits(Ctx& c) {
   for (int k = 0; k < c.nst; k++) {
     long mx = c.maxin[k].get();
-    MC_CHECK(mx <= c.limit[k], "C28: stage %d reached %ld concurrent invocations, limit %ld", k, mx, c.limit[k]);
+    PCHECK(mx <= c.limit[k], "C28: stage %d reached %ld concurrent invocations, limit %ld", k, mx, c.limit[k]);
     if (mx >= 2) mc::cover("stage_concurrency_2");
     mc::observe("max", k * 8 + mx);
   }
   // every generator instance ends with exactly one empty result: their number is bounded by the generator's limit
-  MC_CHECK((long)c.gen_ends.get() <= c.limit[0], "C28: %d generator instances ran, limit %ld", c.gen_ends.get(), c.limit[0]);
+  PCHECK((long)c.gen_ends.get() <= c.limit[0], "C28: %d generator instances ran, limit %ld", c.gen_ends.get(), c.limit[0]);
   if (c.gen_ends.get() >= 2) mc::cover("generator_instances_2");
 }
 
@@ -373,15 +378,31 @@ mc::HookSetter g_hooks(nullptr, canon_stacks);
 
 MC_HARNESS(pipeline) {
   int prop = (int)P("prop", 27), n = (int)P("n", 1), items = (int)P("items", 2);
+  // wildcards (explored exhaustively through mc::choose, cost 0): '*' in st = any of p/2/u; f<k>=-2 = any transform kind of
+  // {value, OpResult dropping nothing, OpResult dropping item 1}; thr=-2 = any stage; at=-2 = any item
   std::string st = P.s("st", "pp");
-  long drops[kMaxStages] = {-1, P("f1", -1), P("f2", -1), P("f3", -1), -1};
+  for (char& ch : st)
+    if (ch == '*') ch = "p2u"[mc::choose(3)];
+  int nst = (int)st.size();
+  long drops[kMaxStages] = {-1, -1, -1, -1, -1};
+  static const char* fk[] = {"", "f1", "f2", "f3"};
+  static const long kinds[] = {-1, 0, 2};
+  for (int k = 1; k < nst - 1 && k <= 3; k++) {
+    long v = P(fk[k], -1);
+    drops[k] = v == -2 ? kinds[mc::choose(3)] : v;
+  }
   Ctx c;
-  configure(c, prop, n, st, drops, items);
   c.thr[0] = (int)P("thr", -1);
   c.at[0] = (int)P("at", 0);
+  if (c.thr[0] == -2) c.thr[0] = mc::choose(nst);
+  if (c.at[0] == -2) c.at[0] = mc::choose(items);
   c.thr[1] = (int)P("thr2", -1);
   c.at[1] = (int)P("at2", 0);
   c.thr_all = P("all", 0) != 0;
+  snprintf(g_desc, sizeof g_desc, "n=%d st=%s items=%d f=%ld,%ld,%ld thr=%d at=%d%s thr2=%d at2=%d", n, st.c_str(), items, drops[1], drops[2], drops[3],
+           c.thr[0], c.at[0], c.thr_all ? "+" : "", c.thr[1], c.at[1]);
+  mc_log("config: %s\n", g_desc);
+  configure(c, prop, n, st, drops, items);
   bool again = P("again", 0) != 0;
   {
     dispenso::ThreadPool pool((size_t)n);
@@ -400,17 +421,17 @@ MC_HARNESS(pipeline) {
     if (prop == 29) {
       // exactly the first captured exception comes out, exactly once (a second delivery would surface in ~pipeline
       // internals or in the second pipeline below)
-      MC_CHECK(threw == (thrown != 0), "C29: pipeline() %s although %s", threw ? "threw" : "returned normally", thrown ? "a stage threw" : "no stage threw");
+      PCHECK(threw == (thrown != 0), "C29: pipeline() %s although %s", threw ? "threw" : "returned normally", thrown ? "a stage threw" : "no stage threw");
       if (threw) {
-        MC_CHECK(tag >= 0 && tag < 40 && (thrown >> tag & 1), "C29: pipeline() threw tag %d, which no stage threw", tag);
-        MC_CHECK(!(c.thrown_late.get() >> tag & 1),
+        PCHECK(tag >= 0 && tag < 40 && (thrown >> tag & 1), "C29: pipeline() threw tag %d, which no stage threw", tag);
+        PCHECK(!(c.thrown_late.get() >> tag & 1),
                  "C29: pipeline() threw tag %d, but that exception was thrown after another one had already been captured", tag);
         mc::observe("tag", tag);
         long instances = std::max<long>(1, std::min<long>(n, c.limit[0]));
-        MC_CHECK(c.gen_late.get() <= instances, "C29: the first stage was invoked %d times after the exception was visible (%ld instances)",
+        PCHECK(c.gen_late.get() <= instances, "C29: the first stage was invoked %d times after the exception was visible (%ld instances)",
                  c.gen_late.get(), instances);
         if (c.gen_late.get()) mc::cover("generator_call_after_exception");
-        for (int k = 0; k < c.nst; k++) MC_CHECK(c.inflight[k].get() == 0, "C29: pipeline() threw while stage %d was still running", k);
+        for (int k = 0; k < c.nst; k++) PCHECK(c.inflight[k].get() == 0, "C29: pipeline() threw while stage %d was still running", k);
         int done = 0;
         for (int k = 0; k < c.nst; k++)
           for (int id = 0; id < c.nitems; id++) done += c.cnt[k][id].get(); // each <= 1: enforced in record()
@@ -419,7 +440,7 @@ MC_HARNESS(pipeline) {
         check_complete(c, "first");
       }
     } else {
-      MC_CHECK(!threw, "harness: unexpected exception");
+      PCHECK(!threw, "harness: unexpected exception");
       if (prop == 27) check_complete(c, "the");
       if (prop == 28) check_limits(c);
     }
@@ -436,7 +457,7 @@ MC_HARNESS(pipeline) {
         threw2 = true;
       }
       d.returned.set(1);
-      MC_CHECK(!threw2, "C29: a later pipeline on the same pool rethrew the old exception");
+      PCHECK(!threw2, "C29: a later pipeline on the same pool rethrew the old exception");
       check_complete(d, "second");
       mc::cover("second_pipeline");
     }
